@@ -61,6 +61,7 @@ TARGETS += [
     ("block.rs", _BI, "advance", "bi_advance", {}, "BlockIter"),
     ("block.rs", _BI, "seek_to_last", "bi_seek_to_last", {}, "BlockIter"),
     ("block.rs", _BI, "prev", "bi_prev", {}, "BlockIter"),
+    ("table_reader.rs", r"impl\s+Table\b", "block_cache_handle", "table_block_cache_handle", {"cache_id": "u64"}),
     ("blockhandle.rs", r"impl\s+BlockHandle", "try_decode", "bh_try_decode", {}),
     ("table_builder.rs", r"impl\s+Footer", "try_decode", "footer_try_decode", {}),
     ("block.rs", _BI, "current", "bi_current", {}, "BlockIter"),
@@ -213,6 +214,13 @@ class P:
         k, v = self.next()
         if k != "id":
             raise Untranslatable("type expected, found %r" % v)
+        while self.at("::"):
+            self.next()
+            k, v = self.next()
+        if v == "CacheKey":
+            return "bytes"
+        if v == "CacheID":
+            return "u64"
         if v == "Vec":
             self.expect("<")
             t = self.ty()
@@ -1454,6 +1462,21 @@ class Emitter:
             env2[tmp] = (tmp, t)
             inner = self.mutate(("mcall", ("var", tmp), e[2], e[3]), env2)
             return "let %s : %s := self_.%s\n%s\nlet self_ : %s := { self_ with %s := %s }" % (tmp, lean_ty(t), lf, inner, STRUCTS[self.struct]["lean"], lf, tmp)
+        tgt = e[1]
+        while tgt[0] == "paren":
+            tgt = tgt[1]
+        if tgt[0] == "index" and tgt[2][0] == "range" and tgt[1][0] == "var" and tgt[1][1] in env and e[2] == "write_fixedint":
+            # (&mut x[a..b]).write_fixedint(v): the little-endian bytes of v overwrite the head of the sub-slice
+            nm, t = env[tgt[1][1]]
+            if t != "bytes":
+                raise Untranslatable("write into a slice of %s" % t)
+            lo = "0" if tgt[2][1] is None else self.expr(tgt[2][1], env, "usize")[0]
+            hi = ("(%s).length" % nm) if tgt[2][2] is None else self.expr(tgt[2][2], env, "usize")[0]
+            c, ct = self.expr(e[3][0], env, None)
+            enc = {"u32": "encodeFixed32", "u64": "encodeFixed64"}.get(ct)
+            if enc is None:
+                raise Untranslatable("write_fixedint of %s" % ct)
+            return "let %s : Bytes := (← Rt.writeAt %s %s %s (%s %s) %s)" % (nm, nm, par(lo), par(hi), enc, par(c), self.site("write into slice"))
         v = self.lvalue_var(e[1], env)
         nm, t = env[v]
         m, args = e[2], e[3]
